@@ -242,6 +242,13 @@ func writerCases(r *rng.R, n int) {
 		// One-part chunks (empty header or empty content) are frequent in these cases.
 		lending := i%2 == 1
 		var hbuf, cbuf [64]byte
+		// every fourth case: ONE scratch buffer for everything the producer lends - a header-only chunk
+		// whose header is the front of the scratch buffer (spare capacity behind it), later a chunk whose
+		// content lives in the same array under a header from elsewhere: a writer that keeps a lent
+		// slice builds its next message inside the caller's memory.
+		shared := i%4 == 3
+		var sbuf [128]byte
+		var hown [12]byte
 		if lending {
 			k = 2 + r.Intn(4)
 		}
@@ -256,8 +263,28 @@ func writerCases(r *rng.R, n int) {
 					cl = 0
 				}
 				h, c = hbuf[:hl], cbuf[:cl]
+				if shared {
+					switch (j + i/4) % 3 {
+					case 0: // header only, at the front of the scratch buffer
+						if hl == 0 {
+							hl = 3
+						}
+						h, c = sbuf[:hl], sbuf[:0]
+					case 1: // content at the front of the scratch buffer, header from elsewhere
+						if cl == 0 {
+							cl = 9
+						}
+						if hl == 0 {
+							hl = 3
+						}
+						h, c = hown[:hl], sbuf[:cl]
+					default: // both in the scratch buffer, content behind the header
+						h, c = sbuf[:hl], sbuf[64:64+cl]
+					}
+					stats["writechunks-one-scratch-buffer"]++
+				}
 				stats["writechunks-lent-buffers"]++
-				if hl == 0 || cl == 0 {
+				if len(h) == 0 || len(c) == 0 {
 					stats["writechunks-one-part"]++
 				}
 			}
